@@ -94,6 +94,7 @@ class Prober:
         self.reraise = reraise    # False: a rendering that raises is recorded in self.raised and reads as None
         self.w = World(rnd)
         self.raised = []          # (decoder, START words, END words, exception): in-domain records must render
+        self.unstable = []        # (decoder, START, END, first text, second text): a reported trace reads the same every time
 
     def distinct_words(self, name, which):
         """in-domain words, pairwise distinct (also in their low 32 bits) where the domain allows"""
@@ -160,7 +161,13 @@ class Prober:
                 r = p.feed(w.concrete(a, k))
                 if r is not None and k == len(stream):
                     out = r
-            return None if out is None else str(out)
+            if out is None:
+                return None
+            t1 = str(out)
+            t2 = str(out)            # what was reported does not change when it is printed again
+            if t1 != t2 and len(self.unstable) < 50:
+                self.unstable.append((name, list(S), list(E), t1, t2))
+            return t1
         except Exception as ex:
             if self.reraise:
                 raise
@@ -250,6 +257,18 @@ def label(pr, name, S, E, paths, nalt=2):
     return {'name': name, 'shaped': True, 'fname': fname, 'unstable': unstable or history_dep, 'params': params,
             'history_dep': history_dep, 'history': [h[0] for h in hist] if history_dep else [], 'text_after_history': t_hist if history_dep else '',
             'res': {'ds': sorted(res_ds), 'de': sorted(res_de), 'dl': sorted(res_dl)}, 'text': base}
+
+
+def report_unstable(ctx, pr):
+    """traces whose text changed when printed a second time (one-shot iterators in a field, ...)"""
+    seen = set()
+    for name, S, E, t1, t2 in pr.unstable:
+        if name in seen:
+            continue
+        seen.add(name)
+        ctx.violation('%s/rendering-changes-when-repeated@%s' % (ctx.prop, name),
+                      '%s with START %s reads %r the first time and %r the second time' % (name, [hex(x) for x in S], t1, t2),
+                      {'kind': 'render', 'name': name, 'start': [hex(x) for x in S], 'end': [hex(x) for x in E]})
 
 
 def report_raised(ctx, pr):
